@@ -384,6 +384,12 @@ class StmtMixin:
                 body = coerce(body, et)
         if et is PYOBJ:
             raise Unsupported("list comprehension element type", node)
+        if not conds and info.seqval is not None and not body.is_py and info.seqval.ty == T.List(et):
+            try:
+                if z3.eq(z3.simplify(lift(body)), z3.simplify(lift(info.item(i)))):
+                    return info.seqval  # [f(x) for x in xs] with f the identity on values: the same sequence
+            except Exception:
+                pass
         r = fresh(T.List(et), "comp")
         ym = fresh(et, "cm")
         # membership characterisation: y in r  <=>  y == body(i) for some (passing) source position i
